@@ -47,6 +47,7 @@ func runC01(r *engine.Run) {
 	r.Rule("LOCK-mpt", "see C16: root, the stores' maps and level links and the collector's maps are accessed only with their owner's mutex held in the required mode")
 	r.Rule("ORDER-critical", "see C16: Insert, Delete, MergeChanges and MergeDB are one critical section each")
 	r.Rule("LOCK-walk", "see C16: every node fetch of a walk that starts at the trie's root happens with the trie's mutex held - a lookup that releases the lock before it walks down reads nodes a writer has meanwhile replaced and removed, and reports a stored path as absent")
+	r.Rule("DOM-cancel", "see C05: AddChange removes the new node's hash from the delete set on every path (an update that is changed back leaves the live node on the delete list: a save with deletes or a merge removes it, and the lookup of a stored path fails)")
 	r.NotDec = append(r.NotDec, "that lookups return the last stored value for every history (path arithmetic, slicing, which child is lifted)", "hex validation of Insert/Delete paths (outside the property's quantifier)")
 	exhU(r)
 	domSize(r)
@@ -74,6 +75,7 @@ func runC01(r *engine.Run) {
 	whoLimit(r, "WHO-limit")
 	lockWalk(r, mptLockDiscipline(r))
 	freshPathBuf(r, "FRESH-pathbuf")
+	domCancel(r)
 }
 
 var nodeKinds = []string{"ExtensionNode", "FullNode", "LeafNode"}
